@@ -378,4 +378,3 @@ Section WithCodec.
 
 End WithCodec.
 
-Arguments Absent. Arguments FetchErr.
